@@ -322,7 +322,12 @@ def mk_slice(eng, call, base, lo, hi):
 def m_index(eng, call, args):
     names = " ".join(call.get("norm_names", []))
     if "bitvec" in names:
-        return mk("refv", mk("ext", "bitvec_index", val(eng, call, args[0]), args[1]))
+        bv = val(eng, call, args[0])
+        rb = _range_bounds(eng, call, eng.length(call["state"], bv), args[1])
+        if rb is not None:
+            call["pre"] = ("range", rb[0], rb[1], eng.length(call["state"], bv))
+            return mk("refv", mk_slice(eng, call, bv, rb[0], rb[1]))
+        return mk("refv", mk("ext", "bitvec_index", bv, args[1]))
     base = val(eng, call, args[0])
     n = eng.length(call["state"], base)
     rb = _range_bounds(eng, call, n, args[1])
@@ -861,7 +866,8 @@ def range_facts(e):
     return [(mk("le", e.args[0], e), "eq", 1), (mk("lt", e, e.args[1]), "eq", 1)]
 
 
-@model("std::slice::<impl [T]>::iter", "std::slice::<impl [T]>::iter_mut", "std::vec::Vec::<T, A>::iter")
+@model("std::slice::<impl [T]>::iter", "std::slice::<impl [T]>::iter_mut", "std::vec::Vec::<T, A>::iter",
+       "bitvec::slice::api::<impl bitvec::slice::BitSlice<T, O>>::iter")
 def m_iter(eng, call, args):
     # the site distinguishes the elements of different (e.g. nested) iterations over one collection
     if any(x.endswith("::iter_mut") for x in call.get("norm_names", [])) and args[0].op == "ref":
@@ -892,7 +898,7 @@ def m_into_iter(eng, call, args):
     return mk("iter", a, False, call["site"])
 
 
-@model("std::iter::Iterator::cloned", "std::iter::Iterator::copied")
+@model("std::iter::Iterator::cloned", "std::iter::Iterator::copied", "bitvec::slice::Iter::<'a, T, O>::by_vals")
 def m_cloned(eng, call, args):
     return mk("cloned_iter", args[0])
 
@@ -1554,7 +1560,7 @@ def m_map_contains_key(eng, call, args):
     return mk("map_has", m, k)
 
 
-@model("std::collections::HashMap::<K, V, S, A>::entry")
+@model("std::collections::HashMap::<K, V, S, A>::entry", "std::collections::BTreeMap::<K, V, A>::entry")
 def m_entry(eng, call, args):
     m = val(eng, call, args[0])
     E = "std::collections::hash_map::Entry"
@@ -1673,6 +1679,15 @@ def m_split_at(eng, call, args):
     n = eng.length(call["state"], v)
     call["pre"] = ("le", args[1], n)
     return mk("agg", "tuple", mk("refv", mk_slice(eng, call, v, Int(0), args[1])), mk("refv", mk_slice(eng, call, v, args[1], n)))
+
+
+@model("std::slice::<impl [T]>::split_at_checked", "std::slice::<impl [T]>::split_at_mut_checked")
+def m_split_at_checked(eng, call, args):
+    v = val(eng, call, args[0])
+    n = eng.length(call["state"], v)
+    okc = mk("le", args[1], n)
+    pair = mk("agg", "tuple", mk("refv", mk_slice(eng, call, v, Int(0), args[1])), mk("refv", mk_slice(eng, call, v, args[1], n)))
+    return two_way("std::option::Option", [(0, "None", [], [(okc, "eq", 0)]), (1, "Some", [pair], [(okc, "eq", 1)])])
 
 
 @model("std::slice::<impl [T]>::split_first", "std::slice::<impl [T]>::split_last")
